@@ -40,7 +40,7 @@ pub fn spec() -> CheckSpec {
     ],
     real_components: "deno_graph builder, parse_module / fill_module_dependencies / parse_js_module_from_module_info, deno_ast+swc analysis, registry embedded-info path",
     stub_components: "all seams simulated; reference model of module dependencies and of the closure",
-    quick_cases: 5000,
+    quick_cases: 15000,
     thorough_cases: 400000,
     run_case,
     systematic: |_| 0,
